@@ -705,14 +705,14 @@ def c02(tier):
 
 @check("C07")
 def c07(tier):
-    return broker_check("C07", tier, [("SubsSpec", "cover", 5, 6, "mockSuccess")], {"C07", "C01", "C08"},
+    return broker_check("C07", tier, [("SubsSpec", "cover", 5, 6, "mockSuccess"), ("SubsSpec", "paths", 2, 3, "mockSuccess")], {"C07", "C01", "C08"},
                         "configuration subs: SUBSCRIBE requests with 1..9 filters incl. invalid filters and QoS 3, two packet ids, UNSUBSCRIBE lists of 1..9, "
                         "probe publishes from a second client; SUBACK/UNSUBACK bytes and subsequent deliveries compared.")
 
 
 @check("C08")
 def c08(tier):
-    return broker_check("C08", tier, [("RetainSpec", "cover", 4, 5, "mockSuccess")], {"C08", "C01"},
+    return broker_check("C08", tier, [("RetainSpec", "cover", 3, 4, "mockSuccess"), ("Retain1Spec", "paths", 4, 5, "mockSuccess")], {"C08", "C01"},
                         "configuration retain: retained / non-retained / empty-payload publishes (QoS 0..2) on parent, child and sibling topics, replacement by "
                         "shorter and longer payloads, subscriptions with literal and wildcard filters (also two filters in one request, in-process subscriber); "
                         "packets after SUBACK and live forwards compared incl. retain flag, QoS, payload bytes.")
@@ -734,7 +734,7 @@ def c10(tier):
 
 @check("C11")
 def c11(tier):
-    return broker_check("C11", tier, [("AdmitSpec", "cover", 4, 5, "mockSuccess"), ("AuthSpec", "cover", 3, 3, "mockFailure"), ("SelSpec", "cover", 6, 7, "verifSelective")], {"C11", "C01", "C10", "C07"},
+    return broker_check("C11", tier, [("AdmitSpec", "cover", 4, 5, "mockSuccess"), ("AdmitSpec", "paths", 2, 3, "mockSuccess"), ("AuthSpec", "cover", 3, 3, "mockFailure"), ("SelSpec", "cover", 6, 7, "verifSelective")], {"C11", "C01", "C10", "C07"},
                         "configuration admit: 14 kinds of refused first packets (unsupported level, name mismatch, client id too long / unprintable / empty with "
                         "CleanSession 0, reserved flag, will flags, other packet types, truncated CONNECT, garbage, bad fixed-header flags) with follow-up "
                         "SUBSCRIBE '#' and retained PUBLISH on the refused connection, accepting and rejecting authenticators; CONNACK bytes, closure, witness "
